@@ -81,6 +81,13 @@ class Gen:
         if ty in ("int", "uint"):
             if leaf:
                 return self.pick([self.prop(ty, d), self.prop(ty, d), self.lit(ty)] + ([("call", ("member", self.obj(d), "compute"), [self.operand("int", d + 1)])] if ty == "int" else []))
+            if r < 0.12 and ty == "int":
+                # a sub-expression folded at translation time next to a run-time operand (negative dividends included)
+                k = ("int", self.pick([1, 2, 3, 5, 7, 9, 16, 100]))
+                if self.chance(0.6):
+                    k = ("unary", "-", k)
+                c = ("binary", self.pick(["/", "%", "/", "%", "+", "-", "*"]), k, ("int", self.pick([1, 2, 3, 4, 7])))
+                return ("binary", self.pick(["+", "-", "&", "|"]), self.typed(ty, d + 1), c)
             if r < 0.5:
                 op = self.pick(["+", "-", "*", "+", "-", "/", "%", "&", "|", "^"])
                 return ("binary", op, self.operand(ty, d + 1), self.operand(ty, d + 1))
@@ -217,8 +224,25 @@ class Gen:
         self.scopes.pop()
         return body
 
+    def alias_block(self, d):
+        """const c = v; v = ...; use of c and v -- a const initialised from a variable keeps the OLD value"""
+        cands = [(n, t) for sc in self.scopes for (n, t, k, init) in sc if k == "let" and init and t in ("int", "uint", "string", "bool")]
+        if not cands:
+            return None
+        v, t = self.pick(cands)
+        c = self.fresh()
+        newv = self.typed(t, d + 1) if t in ("int", "uint") else self.expr(t, d + 1)
+        use = [("expr", ("call", ("member", ("ident", "console"), "log"), [("ident", c), ("ident", v)]))]
+        if self.handler:
+            use.append(("expr", ("assign", ("member", ("ident", self.pick(["a", "b"])), PROP[t]), ("ident", c))))
+        return ("block", [("decl", "const", [(c, None, ("ident", v))]), ("expr", ("assign", ("ident", v), newv))] + use)
+
     def stmt(self, d, ret_ty):
         r = self.rng.random()
+        if r < 0.08 and self.handler:
+            ab = self.alias_block(d)
+            if ab is not None:
+                return ab
         if r < 0.3:
             return self.decl(d)
         if r < 0.45 and d < self.max_depth:
